@@ -50,7 +50,7 @@ def run(chk):
     rng = random.Random(chk.seed)
     maxlen = 3 if chk.tier == 'quick' else 4
     chk.rule = ('all literal bodies up to length %d over the 18-symbol alphabet of the property x 3 quote kinds (exhaustive), seeded sample of lengths %d-6, '
-                'structured escapes (every escape form with correct / short / long / out-of-range digits); oracle: accepted verbatim <=> well formed per spec.  '
+                'structured escapes (every escape form with correct / short / long / out-of-range digits; every digit position of every form filled with characters that alias a digit under truncation or are non-ASCII digits); oracle: accepted verbatim <=> well formed per spec.  '
                 'non-trivial: well formed or accepted; distinct by literal text.' % (maxlen, maxlen + 1))
     lits = [(q, ''.join(t)) for q in "'\"`" for n in range(0, maxlen + 1) for t in itertools.product(ALPHA, repeat=n)]
     cases = [('file', PRE + q + b + q) for q, b in lits]
@@ -80,6 +80,27 @@ def run(chk):
     a2, b2 = run_both(chk, 'sampled', cases2)
     judge(chk, more, a2)
     chk.count('sampled', cases2, [q + b + q for (q, b), l in zip(more, a2) if gospec.quoted_ok(q, b) or impl_verdict(l)])
+    # digit positions of every escape form filled with characters that are digits only under a careless conversion:
+    # non-ASCII code points whose low byte (or low 16 bits) is an ASCII digit / hex letter, full-width and other
+    # Unicode decimal digits, and the ASCII neighbours of the digit ranges
+    ALIAS = ['\u0130', '\u0141', '\u0166', '\u4e30', '\u4e41', '\U0001f630', '\U00010041', '\uff11', '\uff21', '\u0661', '\u0967',
+             '/', ':', '@', 'G', '`', 'g', '8', '9']
+    FORMS = [('\\x', 2, HEX), ('\\u', 4, HEX), ('\\U', 8, '0'), ('\\', 3, '0123')]
+    lits4 = []
+    for q in "'\"":
+        for pre_, nd, good_ in FORMS:
+            base = [rng.choice(good_) for _ in range(nd)]
+            if pre_ == '\\U': base = list('0000' + ''.join(rng.choice(HEX) for _ in range(4)))
+            for pos in range(nd):
+                for al in ALIAS:
+                    d = list(base); d[pos] = al
+                    lits4.append((q, pre_ + ''.join(d)))
+                    if q == '"': lits4.append((q, 'a' + pre_ + ''.join(d) + 'b'))
+    lits4 = list(dict.fromkeys(lits4))
+    cases4 = [('file', PRE + q + b + q) for q, b in lits4]
+    a4, b4 = run_both(chk, 'alias-digits', cases4)
+    judge(chk, lits4, a4)
+    chk.count('alias-digits', cases4, [q + b + q for (q, b) in lits4])
     # unterminated at end of input
     cases3 = [('file', PRE + q + b) for q, b in lits[:20000:7]]
     a3, b3 = run_both(chk, 'unterminated', cases3)
@@ -91,5 +112,5 @@ def run(chk):
     chk.count('unterminated', cases3)
     for (q, bd), l in list(zip(lits, a))[3000:3003]:
         chk.sample({'input': PRE + q + bd + q, 'spec_ok': gospec.quoted_ok(q, bd), 'impl': impl_verdict(l)})
-    chk.programs = len(cases) + len(cases2) + len(cases3)
+    chk.programs = len(cases) + len(cases2) + len(cases3) + len(cases4)
     chk.disagreements_checked = chk.programs
